@@ -244,6 +244,7 @@ fn obs_msg(bytes: &[u8]) -> String {
 struct Tr {
     s: String,
     bad: Vec<(String, String)>,
+    types: Vec<u16>,
     base: usize,
     len: usize,
 }
@@ -333,6 +334,7 @@ fn ex_record(t: &mut Tr, r: ParsedRecord<'_, [u8]>, prev: &mut Option<u64>) {
     phase("record_parse");
     match r.to_any_record::<AllRecordData<_, _>>() {
         Ok(rec) => {
+            if !matches!(rec.data(), AllRecordData::Unknown(_)) { t.types.push(rec.rtype().to_int()); }
             let z = guarded(t, "record_display", || format!("{}", rec.display_zonefile(DisplayKind::Simple))).unwrap_or_default();
             let zt = guarded(t, "record_display", || format!("{}", rec.display_zonefile(DisplayKind::Tabbed))).unwrap_or_default();
             let zm = guarded(t, "record_display", || format!("{}", rec.display_zonefile(DisplayKind::Multiline))).unwrap_or_default();
@@ -412,11 +414,11 @@ fn ex_section(t: &mut Tr, sec: RecordSection<'_, [u8]>) {
 
 /// Everything the property lists, in a fixed order.  Returns the transcript and
 /// the invariant violations noticed on the way.
-fn read_all(bytes: &[u8], query: &[u8]) -> (String, Vec<(String, String)>) {
-    let mut t = Tr { s: String::new(), bad: vec![], base: bytes.as_ptr() as usize, len: bytes.len() };
+fn read_all(bytes: &[u8], query: &[u8]) -> (String, Vec<(String, String)>, Vec<u16>) {
+    let mut t = Tr { s: String::new(), bad: vec![], types: vec![], base: bytes.as_ptr() as usize, len: bytes.len() };
     let msg = match Message::from_slice(bytes) {
         Ok(m) => m,
-        Err(e) => { let _ = write!(t.s, "short[{}]", e); let _ = Message::from_octets(bytes).is_err(); return (t.s, t.bad); }
+        Err(e) => { let _ = write!(t.s, "short[{}]", e); let _ = Message::from_octets(bytes).is_err(); return (t.s, t.bad, t.types); }
     };
     phase("header");
     let h = msg.header();
@@ -516,7 +518,7 @@ fn read_all(bytes: &[u8], query: &[u8]) -> (String, Vec<(String, String)>) {
         }
         t.s.push('/');
     }
-    (t.s, t.bad)
+    (t.s, t.bad, t.types)
 }
 
 fn oracle_msg(out: &mut Out, bytes: &[u8], query: &[u8], kind: &str) {
@@ -529,15 +531,16 @@ fn oracle_msg(out: &mut Out, bytes: &[u8], query: &[u8], kind: &str) {
             let site = last_site();
             out.check(false, &format!("panic_{}", site), &case, &e);
         }
-        Ok((tr1, bad)) => {
+        Ok((tr1, bad, types)) => {
             out.check(true, "panic", &case, "");
+            for ty in types { out.count(&format!("typed_rr_{}", ty)); }
             for (cls, d) in bad.iter() { out.check(false, cls, &case, d); }
             if bad.is_empty() { out.check(true, "invariants", &case, ""); }
             // second traversal, on a fresh copy at another address
             let b2 = bytes.to_vec(); let q2 = query.to_vec();
             match catch(move || read_all(&b2, &q2)) {
                 Err(e) => out.check(false, &format!("panic_{}", last_site()), &case, &format!("second traversal: {}", e)),
-                Ok((tr2, _)) => {
+                Ok((tr2, _, _)) => {
                     let same = tr1 == tr2;
                     let d = if same { String::new() } else {
                         let i = tr1.bytes().zip(tr2.bytes()).position(|(a, b)| a != b).unwrap_or(0);
@@ -585,6 +588,18 @@ fn rand_label(r: &mut Rng) -> Vec<u8> {
 fn rand_name_wire(r: &mut Rng, pool: &[Vec<u8>]) -> Vec<u8> {
     // labels, possibly sharing a suffix with a pooled name so compression kicks in
     let mut w = Vec::new();
+    if r.chance(1, 14) {
+        // a name whose wire length is close to the 255 octet limit
+        let total = r.range(248, 255) as usize;
+        while w.len() + 1 < total {
+            let room = total - 1 - w.len();
+            let l = if room <= 64 { room - 1 } else { (r.range(20, 63) as usize).min(room - 2) };
+            if l == 0 { break; }
+            w.push(l as u8); w.extend((0..l).map(|_| b'a' + (r.below(26) as u8)));
+        }
+        w.push(0);
+        return w;
+    }
     let k = r.below(4);
     for _ in 0..k { let l = rand_label(r); if w.len() + l.len() + 1 > 150 { break; } w.push(l.len() as u8); w.extend_from_slice(&l); }
     if !pool.is_empty() && r.chance(2, 3) {
@@ -629,7 +644,28 @@ fn raw_rdata(r: &mut Rng, ty: u16, pool: &[Vec<u8>]) -> Vec<u8> {
         63 => { v = r.bytes(6); v.extend(r.bytes(48)); }
         64 | 65 => {
             v = r.bytes(2); v.extend(nm(r));
-            if r.chance(1, 2) { v.extend(&[0, 1, 0, 3, 2, b'h', b'2']); v.extend(&[0, 3, 0, 2, 1, 187]); v.extend(&[0, 4, 0, 4, 1, 2, 3, 4]); }
+            if r.chance(1, 3) { v.extend(&[0, 1, 0, 3, 2, b'h', b'2']); v.extend(&[0, 3, 0, 2, 1, 187]); v.extend(&[0, 4, 0, 4, 1, 2, 3, 4]); }
+            else if r.chance(1, 2) {
+                // ascending keys, values structured or random
+                let mut key = 0u16;
+                for _ in 0..r.below(6) {
+                    if r.chance(1, 2) { key += r.below(3) as u16; }
+                    let val: Vec<u8> = match (key, r.below(3)) {
+                        (_, 0) => { let n = r.below(14) as usize; r.bytes(n) }
+                        (0, _) => { let n = r.below(4) as usize; (0..n).flat_map(|_| (r.range(1, 8) as u16).to_be_bytes()).collect() }
+                        (1, _) => { let mut a = vec![]; for _ in 0..r.below(4) { let n = r.below(5) as usize; a.push(n as u8); a.extend((0..n).map(|_| b'a' + r.below(26) as u8)); } a }
+                        (2, _) => vec![],
+                        (3, _) => r.bytes(2),
+                        (4, _) => { let n = 4 * r.below(4) as usize; r.bytes(n) }
+                        (6, _) => { let n = 16 * r.below(3) as usize; r.bytes(n) }
+                        (7, _) => b"/dns-query{?dns}".to_vec(),
+                        (9, _) => { let n = 2 * r.below(4) as usize; r.bytes(n) }
+                        _ => { let n = r.below(10) as usize; r.bytes(n) }
+                    };
+                    v.extend(&key.to_be_bytes()); v.extend(&(val.len() as u16).to_be_bytes()); v.extend(val);
+                    key += 1;
+                }
+            }
         }
         250 => { v = nm(r); v.extend(r.bytes(6)); v.extend(&[1, 44, 0, 4]); v.extend(r.bytes(4)); v.extend(r.bytes(2)); v.extend(&[0, 0, 0, 0]); }
         257 => { v = vec![r.u8(), 5]; v.extend(b"issue"); v.extend(b"ca.example"); }
@@ -693,7 +729,22 @@ fn built_message(r: &mut Rng) -> Vec<u8> {
             let payload = r.u16(); let dok = r.chance(1, 2);
             let nopts = r.below(4);
             let mut optdata: Vec<(u16, Vec<u8>)> = vec![];
-            for _ in 0..nopts { let code = r.range(1, 16) as u16; let n = match code { 8 => 8, 10 => 8, 9 => 4, 11 => 0, _ => r.below(12) as usize }; optdata.push((code, r.bytes(n))); }
+            for _ in 0..nopts {
+                let code = r.range(1, 20) as u16;
+                let d: Vec<u8> = match (code, r.below(3)) {
+                    (_, 0) => { let n = r.below(26) as usize; r.bytes(n) }
+                    (8, _) => { let fam = r.range(1, 2) as u16; let bits = if fam == 1 { r.below(33) } else { r.below(129) } as u8; let mut d = fam.to_be_bytes().to_vec(); d.push(bits); d.push(r.below(33) as u8); d.extend(r.bytes(((bits as usize) + 7) / 8)); d }
+                    (10, _) => { let n = *r.pick(&[8usize, 16, 24, 40, 7, 41]); r.bytes(n) }
+                    (9, _) => { let n = *r.pick(&[0usize, 4]); r.bytes(n) }
+                    (11, _) => { let n = *r.pick(&[0usize, 2]); r.bytes(n) }
+                    (13, _) => rand_name_wire(r, &[]),
+                    (14, _) => { let n = 2 * r.below(4) as usize; r.bytes(n) }
+                    (15, _) => { let mut d = (r.below(30) as u16).to_be_bytes().to_vec(); d.extend(b"text \xff"); d }
+                    (5, _) | (6, _) | (7, _) => { let n = r.below(5) as usize; r.bytes(n) }
+                    _ => { let n = r.below(12) as usize; r.bytes(n) }
+                };
+                optdata.push((code, d));
+            }
             let _ = ar.opt(|o| {
                 o.set_udp_payload_size(payload);
                 o.set_dnssec_ok(dok);
@@ -824,6 +875,28 @@ fn mutate(r: &mut Rng, base: &[u8]) -> Vec<u8> {
     m
 }
 
+/// Hand-assembled: a question name of q octets and an answer whose owner is
+/// `own` octets of labels followed by a pointer to the question name, so that the
+/// uncompressed length is around the 255 octet limit.
+fn long_via_pointer(r: &mut Rng) -> Vec<u8> {
+    let mut m = vec![r.u8(), r.u8(), 0x80, 0, 0, 1, 0, 1, 0, 0, 0, 0];
+    let labels = |r: &mut Rng, total: usize, m: &mut Vec<u8>| {
+        let mut left = total;
+        while left >= 2 { let l = (r.range(1, 63) as usize).min(left - 1); m.push(l as u8); m.extend((0..l).map(|_| b'a' + (r.below(26) as u8))); left -= l + 1; }
+    };
+    let q = r.range(2, 120) as usize;
+    labels(r, q, &mut m); m.push(0);
+    let qlen = m.len() - 12;
+    m.extend(&[0, 1, 0, 1]);
+    let target = 255i64 - qlen as i64 + r.range(0, 6) as i64 - 3;
+    let own = target.max(2) as usize;
+    labels(r, own, &mut m);
+    m.extend(&[0xC0, 12]);
+    m.extend(&[0, 5, 0, 1, 0, 0, 0, 60]);
+    if r.chance(1, 2) { m.extend(&[0, 2, 0xC0, 12]); } else { m.extend(&[0, 0]); }
+    m
+}
+
 fn raw_random(r: &mut Rng) -> Vec<u8> {
     let n = match r.below(10) { 0 => r.below(14) as usize, 1 => r.range(500, 600) as usize, _ => r.below(120) as usize };
     let mut m = r.bytes(n);
@@ -919,12 +992,12 @@ fn real_main() {
         *idx += 1;
         if !out.wants(*idx) { return; }
         oracle_msg(out, m, &query, kind);
-        if !t2 || m.len() > 700 { return; }
+        if !t2 || m.len() > 1000 { return; }
         let s = scan(m);
         // name parsing at structure positions and a few random ones
-        let mut positions: Vec<usize> = s.names.iter().cloned().take(6).collect();
+        let mut positions: Vec<usize> = s.names.iter().cloned().take(4).collect();
         positions.push(12.min(m.len()));
-        for _ in 0..2 { positions.push(r.below(m.len() as u64 + 1) as usize); }
+        positions.push(r.below(m.len() as u64 + 1) as usize);
         for &p in positions.iter() {
             if p > m.len() { continue; }
             let lim = if r.chance(3, 4) { m.len() } else { p + r.below((m.len() - p) as u64 + 1) as usize };
@@ -932,7 +1005,7 @@ fn real_main() {
             out.begin(&c);
             let o = obs_pname(m, p, lim);
             out.case(&c, &o, o.starts_with("Ok"), "pname");
-            if r.chance(1, 2) {
+            if kind == "corpus" || r.chance(1, 3) {
                 let c = format!("skip {} {} {}", lim, p, hex(m));
                 out.begin(&c);
                 let o = obs_skip(m, p, lim);
@@ -952,6 +1025,27 @@ fn real_main() {
         out.case(&c, &o, m.len() > 12, "msgframe");
     };
 
+    // fixed name-parsing cases: (message, pos, lim)
+    let fixed: Vec<(Vec<u8>, usize, usize)> = vec![
+        (vec![0xC1, 0, 0xC0, 0], 2, 4),                         // chain coming down to offset 0
+        (vec![0xC0, 2, 0xC0, 0, 0xC0, 2], 4, 6),
+        (b"\x03www\x07example\x03com\0\xc0\0".to_vec(), 17, 19),
+        (b"\x03com\0\x03www\x07example\xC0\0".to_vec(), 5, 19),
+        (b"\x03com\0\x07example\xc0\0\x03www\xc0\x05".to_vec(), 15, 21),
+        (b"\x03com\0\x07example\xc0\0\x03www\xc0\x05".to_vec(), 15, 20),
+        (vec![0], 0, 1), (vec![0], 0, 0), (vec![0], 1, 1), (vec![1], 0, 1), (vec![0xC0], 0, 1), (vec![0x40], 0, 1),
+    ];
+    for (m, p, lim) in fixed.iter() {
+        idx += 1;
+        if !out.wants(idx) { continue; }
+        let c = format!("pname {} {} {}", lim, p, hex(m));
+        out.begin(&c);
+        let o = obs_pname(m, *p, *lim);
+        out.case(&c, &o, o.starts_with("Ok"), "pname");
+        let c = format!("skip {} {} {}", lim, p, hex(m));
+        let o = obs_skip(m, *p, *lim);
+        out.case(&c, &o, o.starts_with("Ok"), "skip");
+    }
     for m in corpus() { run_msg(&mut out, &mut r, &m, "corpus", &mut idx, true); }
     // truncation of one built message at every offset
     {
@@ -965,6 +1059,7 @@ fn real_main() {
         run_msg(&mut out, &mut r, &m, "built", &mut idx, true);
         for _ in 0..5 { let mm = mutate(&mut r, &m); run_msg(&mut out, &mut r, &mm, "mutated", &mut idx, i % 2 == 0); }
     }
+    for _ in 0..300 * scale { let m = long_via_pointer(&mut r); run_msg(&mut out, &mut r, &m, "longptr", &mut idx, true); }
     for i in 0..4000 * scale { let m = raw_random(&mut r); run_msg(&mut out, &mut r, &m, "random", &mut idx, i % 2 == 0); }
     for _ in 0..600 * scale {
         idx += 1;
